@@ -1461,7 +1461,11 @@ class Step:
         n = 0
         while buf.capacity == cap0 and n < 200:
             sz = max(8, cap0 // 4)
-            off = buf.allocate(sz)
+            try:
+                off = buf.allocate(sz)
+            except Exception as e:
+                self.viol("C04", "valid_allocation_raised", ["grow_until", exc_sig(e)], f"allocate({sz}): {type(e).__name__}: {e}")
+                return
             w.regions.append([buf, off, sz])
             n += 1
         self.res.fault("grow_until")
@@ -1535,7 +1539,7 @@ class Step:
                         if M.same(M.snapshot(w.schema, o.t, o.node), gotv):
                             # (a dressed object whose attributes stop reflecting its buffer during a
                             # hybrid operation is C18's own subject)
-                            self.viol("C18" if kind.startswith("h_") and getattr(o, "dressed", None) is not None else "C06", "kept_handle_stale_view_agrees_with_model", [kind, "written_through_" + str(self.op.get("via", "-")), typegen.features(w.schema, o.t)], f"object {o.k}: reading the kept handle raised {type(e).__name__}: {e} (model == rebuilt view); after {str(self.op)[:300]}")
+                            self.viol("C20" if getattr(o.buf, "_sim_restored", False) else "C18" if kind.startswith("h_") and getattr(o, "dressed", None) is not None else "C06", "kept_handle_stale_view_agrees_with_model", [kind, "written_through_" + str(self.op.get("via", "-")), typegen.features(w.schema, o.t)], f"object {o.k}: reading the kept handle raised {type(e).__name__}: {e} (model == rebuilt view); after {str(self.op)[:300]}")
                             continue
                     except Exception:
                         pass
